@@ -130,6 +130,28 @@ Definition d_madd (a b c : f64) : f64 := dadd (dmul a b) c.
 Definition d_lerp (f : f32) (a b : f64) : f64 :=
   dadd (dmul (d_of_f32 (bsub c_one f)) a) (dmul (d_of_f32 f) b).
 
+(* uniform_real_distribution<T>::operator()(G&) for a generator with range [gmin, gmax] returning k:
+   range = T(g.max() - g.min());  l + ((g() - g.min()) / range) * (u - l);   T = float / double.
+   (b_of_u32 / d_of_Z convert ANY non-negative integer with one rounding, also 64-bit ones) *)
+Definition d_of_Z (k : Z) : f64 := binary_normalize 53 1024 Hprec64 Hmax64 mode_NE k 0 false.
+Definition b_uniform_g (l u : f32) (gmin gmax k : Z) : f32 :=
+  let range := b_of_u32 (gmax - gmin) in
+  badd l (bmul (bdiv (b_of_u32 (k - gmin)) range) (bsub u l)).
+Definition d_uniform_g (l u : f64) (gmin gmax k : Z) : f64 :=
+  let range := d_of_Z (gmax - gmin) in
+  dadd l (dmul (ddiv (d_of_Z (k - gmin)) range) (dsub u l)).
+(* the generator family of the harness (harness/C07/harness.cpp, GenStub<R, MIN, MAX>): id -> (min, max) *)
+Definition gen_range (id : Z) : Z * Z :=
+  match id with
+  | 0 => (0, 4294967295)                      (* uint32_t, fills the type (pcg32, mt19937) *)
+  | 1 => (1, 2147483646)                      (* uint32_t, minstd_rand0 / minstd_rand *)
+  | 2 => (1, 6)                               (* uint32_t toy LCG mod 7 *)
+  | 3 => (0, 18446744073709551615)            (* uint64_t, fills the type (mt19937_64) *)
+  | 4 => (1, 2305843009213693950)             (* uint64_t, min() != 0 *)
+  | 5 => (5, 1005)
+  | _ => (1000000007, 1000000262)             (* uint64_t, small range far from 0 *)
+  end.
+
 (* seeds arrive as the value of the C++ int (may be negative) *)
 Definition run_case (fn : Z) (a : list Z) : Z :=
   match fn, a with
@@ -147,6 +169,8 @@ Definition run_case (fn : Z) (a : list Z) : Z :=
   | 12, [seed; seq; lo; hi; n] => to_bits (b_uniform seed seq (of_bits lo) (of_bits hi) (Z.to_nat n))
   | 13, [i; m] => to_bits (b_color i m)
   | 16, [] => to_bits c_deg2rad
+  | 50, [g; 32; lo; hi; k] => to_bits (b_uniform_g (of_bits lo) (of_bits hi) (fst (gen_range g)) (snd (gen_range g)) k)
+  | 50, [g; 64; lo; hi; k] => to_bits64 (d_uniform_g (of_bits64 lo) (of_bits64 hi) (fst (gen_range g)) (snd (gen_range g)) k)
   | 40, [x] => to_bits64 (d_rcp (of_bits64 x))
   | 41, [x] => to_bits64 (d_rcp_safe (of_bits64 x))
   | 42, [x] => to_bits64 (d_rsqrt (of_bits64 x))
